@@ -1501,6 +1501,16 @@ class FE:
         m_ = re.match(r'llvm\.(ctlz|cttz|ctpop|bswap|abs)\.i(\d+)$', n)
         if m_:
             out.append('%sverif_%s%s(%s);' % (asg, m_.group(1), m_.group(2), A[0])); return False
+        m_ = re.match(r'llvm\.(fshl|fshr)\.v(\d+)i(\d+)$', n)
+        if m_:
+            for i in range(int(m_.group(2))):
+                out.append('%s.a[%d] = verif_%s%s(%s.a[%d], %s.a[%d], %s.a[%d]);' % (r, i, m_.group(1), m_.group(3), A[0], i, A[1], i, A[2], i))
+            return False
+        m_ = re.match(r'llvm\.(ctlz|cttz|ctpop|bswap)\.v(\d+)i(\d+)$', n)
+        if m_:
+            for i in range(int(m_.group(2))):
+                out.append('%s.a[%d] = verif_%s%s(%s.a[%d]);' % (r, i, m_.group(1), m_.group(3), A[0], i))
+            return False
         m_ = re.match(r'llvm\.(fshl|fshr)\.i(\d+)$', n)
         if m_:
             out.append('%sverif_%s%s(%s, %s, %s);' % (asg, m_.group(1), m_.group(2), A[0], A[1], A[2])); return False
